@@ -461,7 +461,29 @@ fn gen_scenario(kind: Kind, w: &mut W) -> Scenario {
         w.cfg.read_yields_first = false;
         w.cfg.read_pending_despite_data = false;
     }
-    let mode = format!("seeded cfg={:?} service_suspends={suspends} stream_size_hint={} stream_gate={stream_gate:?} stream_flood={stream_flood:?}", w.cfg, w.stream_size_hint);
+    // Which instantiation of the Service trait's associated types serves this world. The zero-sized
+    // stream type has no identity: worlds that use it keep one streaming call at most.
+    let plain_world = kind != Kind::C18 && real.iter().all(|r| r.is_none()) && stream_gate.is_none() && stream_flood.is_none();
+    let variant = match t.draw(8) {
+        0..=4 => 0u8,
+        7 if plain_world => 2,
+        _ => 1,
+    };
+    if variant == 2 {
+        let mut seen = false;
+        for c in clients.iter_mut() {
+            for k in c.calls.iter_mut() {
+                if matches!(k, CallSpec::Stream { .. } | CallSpec::Deferred { .. }) {
+                    if seen {
+                        *k = CallSpec::Echo { pad: 2, oneway: false };
+                    }
+                    seen = true;
+                }
+            }
+        }
+    }
+    w.svc_variant = variant;
+    let mode = format!("seeded cfg={:?} service_suspends={suspends} stream_size_hint={} stream_gate={stream_gate:?} stream_flood={stream_flood:?} service_instantiation={variant}", w.cfg, w.stream_size_hint);
     Scenario { stream_flood, stream_gate, yield_first, clients, late, singles, suspends, mode, real }
 }
 
